@@ -83,7 +83,12 @@ def render(items, rnd, shift=0, same=False):
             out += fill(pre, True, tagline, "    ")
             out.append("    %s: %s" % ("Scenario Outline" if same else rnd.choice(["Scenario Outline", "Scenario Template"]), name))
             ent_lines.append(len(out))
-            out += steps_body(body, rnd, "      ", " <x>")
+            if it.get("et") == 2:                           # outline without rows: heading-only Examples table
+                out += steps_body(body - 2, rnd, "      ", " <x>")
+                out.append("      Examples: todo")
+                out.append("        | x |")
+            else:
+                out += steps_body(body, rnd, "      ", " <x>")
             tab = 0
         else:   # row
             if nt:
